@@ -11,7 +11,7 @@ CLAUSES = {
     'C01': {'WireDet', 'NoMessageLost', 'OnlyFramedMessages', 'NoSpuriousError', 'FirstErrorFinal', 'EndIsFinal',
             'NoSilentFailure', 'StreamTerminates', 'RunComplete', 'NoPanic', 'NoHang', 'EveryPollCompletes',
             'TerminalIsFinal', 'FramesAreTheMessages', 'BodyIsWholeFrames', 'NonEmptyData', 'TrueStatus',
-            'NoCollateralLoss', 'NothingAfterStatus', 'StatusOnce', 'StatusBeforeEnd', 'NoPendingAfterEnd'},
+            'NoCollateralLoss', 'NothingAfterStatus', 'StatusOnce', 'StatusBeforeEnd', 'NoPendingAfterEnd', 'PendingArrangesWakeup'},
     'C03': {'BodyIsWholeFrames', 'FramesAreTheMessages', 'StatusOnce', 'NothingAfterStatus', 'ClientHasNoTrailers',
             'ServerReportsInTrailers', 'TrueStatus', 'EosOnlyAfterStatus', 'StatusBeforeEnd', 'NoCollateralLoss',
             'WireDet', 'NoPendingAfterEnd', 'NonEmptyData', 'NoPanic', 'NoHang', 'RunComplete'},
@@ -21,7 +21,8 @@ CLAUSES = {
             'StatusBeforeEnd', 'FramesAreTheMessages', 'BodyIsWholeFrames', 'EosOnlyAfterStatus'},
     'C07': {'FirstErrorFinal', 'EndIsFinal', 'TerminalIsFinal', 'EveryPollCompletes', 'NoPanic', 'NoHang',
             'OnlyFramedMessages', 'StreamTerminates', 'RunComplete', 'NoSilentFailure', 'NoSpuriousError',
-            'AcceptedIffWithinLimit', 'OversizeIsOutOfRange', 'FlagWithoutEncodingIsInternal', 'NoMessageLost', 'TrueStatus'},
+            'AcceptedIffWithinLimit', 'OversizeIsOutOfRange', 'FlagWithoutEncodingIsInternal', 'NoMessageLost', 'TrueStatus',
+            'PendingArrangesWakeup'},
 }
 
 
